@@ -872,7 +872,9 @@ def main():
     ck.assumptions += [
         "x86-64 SysV sizes (long double = 16, pointer = 8); the table is re-extracted from mir.c on every run",
         "model covers a freshly created module loaded once (all item->addr NULL before MIR_load_module)",
-        "lref slot values are checked behaviourally (jump through the address / label distance), not modelled",
+        "lref slot values are not modelled; the harness checks them the same way under every engine: address form = "
+        "jmpi through (cell - disp) reaches the label; difference form = cell - disp equals the byte difference of the two "
+        "label addresses the engine hands out and jmpi through address(label2) + difference reaches the label",
         "UBSan alignment and pointer-overflow checks disabled: engines store lref values through possibly unaligned "
         "void** and MIR_link computes `(char *) addr + disp` for arbitrary 64-bit disp (both harmless on x86-64)",
         "long double expr results: only the 10 value bytes are compared (the other 6 copied bytes are indeterminate)",
